@@ -137,7 +137,16 @@ class FakeTransport(asyncio.Transport):
             # asyncio: "Fatal error: protocol.data_received() call failed." -> transport is force-closed
             self.net.errors.append(("data_received", type(e).__name__))
             self.net.data_received_raised.append(type(e).__name__)
-            self.close()
+            # ... and connection_lost() is called with that exception (selector transports: _fatal_error -> _force_close(exc))
+            if not self.closing:
+                self.closing = True
+                self.loop.call_soon(self._lost, e)
+
+    def peer_reset(self):
+        """the connection is lost abortively (TCP RST / network error): no EOF, connection_lost gets the OS error"""
+        if self.closed or self.closing:
+            return
+        self._lost(ConnectionResetError(104, "Connection reset by peer"))
 
 
 class Net:
